@@ -102,6 +102,57 @@ Proof.
     + intros j Hj. rewrite !gso by lia. apply Hl. lia.
 Qed.
 
+(* the loop touches the source block only at the indices it visits *)
+Lemma take_frame a i k x a' k' j : take a i k = (x, a', k') -> j <> i -> get a' j = get a j.
+Proof.
+  unfold take. destruct (get a i); intros H Hj; inversion H; subst; try reflexivity.
+  now rewrite gso.
+Qed.
+
+Lemma destroy_frame a i k a' k' j : destroy a i k = (a', k') -> j <> i -> get a' j = get a j.
+Proof.
+  unfold destroy. destruct (get a i); intros H Hj; inversion H; subst; now rewrite gso.
+Qed.
+
+Lemma move_destroy_src_frame : forall n i src dst k src' dst' k',
+  iter_up move_destroy_step n i (src, dst, k) = (src', dst', k') ->
+  forall j, i + N.of_nat n <= j -> get src' j = get src j.
+Proof.
+  induction n as [|n IH]; intros i src dst k src' dst' k' H j Hj; cbn [iter_up] in H.
+  - inversion H; subst. reflexivity.
+  - cbn [move_destroy_step] in H.
+    destruct (take src i k) as [[x src1] k1] eqn:E1.
+    destruct (construct dst i x k1) as [dst1 k2] eqn:E2.
+    destruct (destroy src1 i k2) as [src2 k3] eqn:E3.
+    apply IH with (j := j) in H; [|lia]. rewrite H.
+    rewrite (destroy_frame _ _ _ _ _ _ E3) by lia.
+    apply (take_frame _ _ _ _ _ _ _ E1). lia.
+Qed.
+
+(* the same with the destination shifted by off (InsertObjectAt's second loop) *)
+Lemma move_destroy_off_range (g : N -> Z) (off : N) : forall n i src dst k src' dst' k',
+  (forall j, i <= j < i + N.of_nat n -> get src j = CLive (g j)) ->
+  iter_up (move_destroy_off_step off) n i (src, dst, k) = (src', dst', k') ->
+  (forall j, get dst' j = if (i + off <=? j) && (j <? i + off + N.of_nat n) then CLive (g (j - off)) else get dst j)
+  /\ cnt_rel k k' 0.
+Proof.
+  induction n as [|n IH]; intros i src dst k src' dst' k' Hl H; cbn [iter_up] in H.
+  - inversion H; subst. split; [|apply cnt_rel_refl].
+    intro j. range_solve.
+  - cbn [move_destroy_off_step] in H.
+    rewrite (take_live _ _ _ _ (Hl i ltac:(lia))) in H.
+    unfold construct in H.
+    rewrite (destroy_live _ _ movedv) in H by apply gss.
+    apply IH in H.
+    + destruct H as [Hg [Hli Hb]]. split.
+      * intro j. rewrite Hg.
+        destruct (N.eq_dec j (i + off)) as [->|Hne].
+        -- rewrite gss. replace (i + off - off) with i by lia. range_solve.
+        -- rewrite gso by exact Hne. range_solve.
+      * split; cbn [dec_live inc_live live bad] in *; [lia | exact Hb].
+    + intros j Hj. rewrite !gso by lia. apply Hl. lia.
+Qed.
+
 (* ---- copy-construct a range from another block --------------------------------------------- *)
 Lemma copy_range (g : N -> Z) (src : blk) : forall n i a k a' k',
   (forall j, i <= j < i + N.of_nat n -> get src j = CLive (g j)) ->
@@ -148,6 +199,39 @@ Proof.
       * intros j Hj. rewrite Ho by lia. rewrite !gso by lia. reflexivity.
       * apply Hc.
       * apply Hc.
+    + rewrite gso by lia. apply gss.
+    + intros j Hj. rewrite !gso by lia. apply Hl. lia.
+Qed.
+
+(* ---- InsertObjectAt's loop: cells i-n .. i-1 move one up, from the top ------------------------ *)
+Lemma shift_up_range (g : N -> Z) : forall n i a k x a' k',
+  N.of_nat n <= i ->
+  get a i = CLive x ->
+  (forall j, i - N.of_nat n <= j < i -> get a j = CLive (g j)) ->
+  iter_down shift_up_step n i (a, k) = (a', k') ->
+  (forall j, i - N.of_nat n < j <= i -> get a' j = CLive (g (j - 1)))
+  /\ (exists y, get a' (i - N.of_nat n) = CLive y)
+  /\ (forall j, ~ (i - N.of_nat n <= j <= i) -> get a' j = get a j)
+  /\ cnt_rel k k' 0.
+Proof.
+  induction n as [|n IH]; intros i a k x a' k' Hn Hx Hl H; cbn [iter_down] in H.
+  - inversion H; subst. repeat split.
+    + intros j Hj. lia.
+    + exists x. replace (i - N.of_nat 0) with i by lia. exact Hx.
+    + lia.
+  - cbn [shift_up_step] in H. unfold move_within in H.
+    rewrite (take_live _ _ _ _ (Hl (i - 1) ltac:(lia))) in H.
+    rewrite (assign_live _ _ _ x) in H by (rewrite gso by lia; exact Hx).
+    apply IH with (x := movedv) in H.
+    + destruct H as [Hg [[y Hy] [Ho Hc]]]. repeat split.
+      * intros j Hj. destruct (N.eq_dec j i) as [->|Hne].
+        -- rewrite Ho by lia. apply gss.
+        -- apply Hg. lia.
+      * exists y. replace (i - N.of_nat (S n)) with (i - 1 - N.of_nat n) by lia. exact Hy.
+      * intros j Hj. rewrite Ho by lia. rewrite !gso by lia. reflexivity.
+      * apply Hc.
+      * apply Hc.
+    + lia.
     + rewrite gso by lia. apply gss.
     + intros j Hj. rewrite !gso by lia. apply Hl. lia.
 Qed.
